@@ -328,3 +328,80 @@ Section Progress.
         destruct (flush_done _ _ _ _ _) as [[o d] f]. discriminate.
   Qed.
 End Progress.
+
+(* ---------------------------------------------------------------- bound on the length of runs, termination *)
+
+Section RunLength.
+  Variable v : nat -> res unit.
+  Variable n : nat.
+
+  (* two events per index: one dispatch, one completion *)
+  Definition mu (s : bstate) : nat := 2 * (n - b_in s) + length (b_running s).
+
+  Lemma remove_nat_length i l : mem_nat i l = true -> S (length (remove_nat i l)) = length l.
+  Proof.
+    induction l as [|k t IH]; cbn; [discriminate|].
+    destruct (Nat.eqb k i) eqn:E; cbn; [reflexivity|]. intros H. rewrite IH by exact H. reflexivity.
+  Qed.
+
+  Lemma step_measure s e s' : (b_in s <= n)%nat -> bstep v n s e = Some s' -> S (mu s') = mu s.
+  Proof.
+    intros Hin Hs. unfold bstep in Hs. destruct (b_finished s); [discriminate|].
+    destruct e as [|i].
+    - destruct (Nat.ltb (b_in s) n) eqn:El; [|discriminate]. apply Nat.ltb_lt in El.
+      inversion Hs; subst; clear Hs. unfold mu; cbn. lia.
+    - destruct (mem_nat i (b_running s)) eqn:Em; [|discriminate].
+      destruct (flush_done _ _ _ _ _) as [[o d] f]. inversion Hs; subst; clear Hs. unfold mu; cbn.
+      pose proof (remove_nat_length i (b_running s) Em). lia.
+  Qed.
+
+  Lemma brun_app s1 : forall sched s rest,
+    brun v n s sched = Some s1 -> brun v n s (sched ++ rest) = brun v n s1 rest.
+  Proof.
+    induction sched as [|e t IH]; intros s rest H; cbn in *.
+    - inversion H; subst. reflexivity.
+    - destruct (bstep v n s e) as [s2|]; [|discriminate]. apply IH. exact H.
+  Qed.
+
+  (* every run has exactly 2n - mu events: at most 2n *)
+  Theorem run_length sched : forall s s',
+    binv v n s -> brun v n s sched = Some s' -> (length sched + mu s' = mu s)%nat.
+  Proof.
+    induction sched as [|e t IH]; intros s s' Hi Hr; cbn in Hr.
+    - inversion Hr; subst. reflexivity.
+    - destruct (bstep v n s e) as [s1|] eqn:Es; [|discriminate].
+      assert (Hin : (b_in s <= n)%nat) by (destruct Hi as [_ [H _]]; exact H).
+      pose proof (step_measure s e s1 Hin Es) as Hm.
+      pose proof (binv_step v n s e s1 Hi Es) as Hi1.
+      specialize (IH s1 s' Hi1 Hr). cbn [length]. lia.
+  Qed.
+
+  Corollary run_length_bound sched s :
+    brun v n b_init sched = Some s -> (length sched <= 2 * n)%nat.
+  Proof.
+    intros Hr. pose proof (run_length sched b_init s (binv_init v n) Hr) as H.
+    unfold mu at 2 in H. cbn in H. lia.
+  Qed.
+
+  (* termination: every reachable state can be run on to a final one, and however the schedule is chosen the
+     collector has returned after at most 2n events in total (n dispatches, n completions) *)
+  Theorem collector_terminates (n_pos : (0 < n)%nat) sched s :
+    brun v n b_init sched = Some s ->
+    exists rest s', brun v n b_init (sched ++ rest) = Some s' /\ b_finished s' = true /\
+                    (length (sched ++ rest) <= 2 * n)%nat.
+  Proof.
+    remember (mu s) as k eqn:Ek. revert sched s Ek.
+    induction k as [k IH] using lt_wf_ind. intros sched s Ek Hr.
+    destruct (b_finished s) eqn:Ef.
+    - exists [], s. rewrite app_nil_r. split; [exact Hr|]. split; [exact Ef|]. eapply run_length_bound. exact Hr.
+    - destruct (collector_progress v n n_pos sched s Hr Ef) as [e He].
+      destruct (bstep v n s e) as [s1|] eqn:Es; [|contradiction].
+      assert (Hr1 : brun v n b_init (sched ++ [e]) = Some s1).
+      { rewrite (brun_app s sched b_init [e] Hr). cbn. rewrite Es. reflexivity. }
+      pose proof (binv_run v n sched _ _ (binv_init v n) Hr) as Hi.
+      assert (Hin : (b_in s <= n)%nat) by (destruct Hi as [_ [H _]]; exact H).
+      pose proof (step_measure s e s1 Hin Es) as Hm.
+      destruct (IH (mu s1) ltac:(lia) (sched ++ [e]) s1 eq_refl Hr1) as [rest [s' [H1 [H2 H3]]]].
+      exists (e :: rest), s'. rewrite <- app_assoc in H1, H3. cbn in H1, H3. repeat split; assumption.
+  Qed.
+End RunLength.
